@@ -224,6 +224,13 @@ fn l2t(b: &Value) {
             let mut builder = tracing_log::LogTracer::builder();
             if ctor == "ignore_all" {
                 builder = builder.ignore_all(ignore.clone());
+            } else if ctor == "ignore_mixed" {
+                // the first prefix one by one, the others in one call - and that call once more with nothing (prefixes accumulate)
+                if let Some(first) = ignore.first() {
+                    builder = builder.ignore_crate(first.as_str());
+                }
+                builder = builder.ignore_all(ignore.iter().skip(1).cloned().collect::<Vec<_>>());
+                builder = builder.ignore_all(Vec::<String>::new());
             } else {
                 for c in &ignore {
                     builder = builder.ignore_crate(c.as_str());
